@@ -845,6 +845,8 @@ class Controller:
             direct_address = None
 
         if self.le_scan_enable:
+            # Only an active scanner asks for (and reports) the scan response
+            active_scanning = self.le_scan_type == 1
             # Send a scan report
             if self.le_features & hci.LeFeatureMask.LE_EXTENDED_ADVERTISING:
                 ext_report = hci.HCI_LE_Extended_Advertising_Report_Event.Report(
@@ -866,25 +868,26 @@ class Controller:
                 self.send_hci_packet(
                     hci.HCI_LE_Extended_Advertising_Report_Event([ext_report])
                 )
-                ext_report = hci.HCI_LE_Extended_Advertising_Report_Event.Report(
-                    event_type=hci.HCI_LE_Extended_Advertising_Report_Event.EventType.SCAN_RESPONSE,
-                    address_type=pdu.advertiser_address.address_type,
-                    address=pdu.advertiser_address,
-                    primary_phy=hci.Phy.LE_1M,
-                    secondary_phy=hci.Phy.LE_1M,
-                    advertising_sid=0,
-                    tx_power=0,
-                    rssi=-50,
-                    periodic_advertising_interval=0,
-                    direct_address_type=(
-                        direct_address.address_type if direct_address else 0
-                    ),
-                    direct_address=direct_address or hci.Address.ANY,
-                    data=pdu.data,
-                )
-                self.send_hci_packet(
-                    hci.HCI_LE_Extended_Advertising_Report_Event([ext_report])
-                )
+                if active_scanning:
+                    ext_report = hci.HCI_LE_Extended_Advertising_Report_Event.Report(
+                        event_type=hci.HCI_LE_Extended_Advertising_Report_Event.EventType.SCAN_RESPONSE,
+                        address_type=pdu.advertiser_address.address_type,
+                        address=pdu.advertiser_address,
+                        primary_phy=hci.Phy.LE_1M,
+                        secondary_phy=hci.Phy.LE_1M,
+                        advertising_sid=0,
+                        tx_power=0,
+                        rssi=-50,
+                        periodic_advertising_interval=0,
+                        direct_address_type=(
+                            direct_address.address_type if direct_address else 0
+                        ),
+                        direct_address=direct_address or hci.Address.ANY,
+                        data=pdu.data,
+                    )
+                    self.send_hci_packet(
+                        hci.HCI_LE_Extended_Advertising_Report_Event([ext_report])
+                    )
             else:
                 report = hci.HCI_LE_Advertising_Report_Event.Report(
                     event_type=hci.HCI_LE_Advertising_Report_Event.EventType.ADV_IND,
@@ -894,14 +897,15 @@ class Controller:
                     rssi=-50,
                 )
                 self.send_hci_packet(hci.HCI_LE_Advertising_Report_Event([report]))
-                report = hci.HCI_LE_Advertising_Report_Event.Report(
-                    event_type=hci.HCI_LE_Advertising_Report_Event.EventType.SCAN_RSP,
-                    address_type=pdu.advertiser_address.address_type,
-                    address=pdu.advertiser_address,
-                    data=pdu.data,
-                    rssi=-50,
-                )
-                self.send_hci_packet(hci.HCI_LE_Advertising_Report_Event([report]))
+                if active_scanning:
+                    report = hci.HCI_LE_Advertising_Report_Event.Report(
+                        event_type=hci.HCI_LE_Advertising_Report_Event.EventType.SCAN_RSP,
+                        address_type=pdu.advertiser_address.address_type,
+                        address=pdu.advertiser_address,
+                        data=pdu.data,
+                        rssi=-50,
+                    )
+                    self.send_hci_packet(hci.HCI_LE_Advertising_Report_Event([report]))
 
         # Create connection.
         if (
